@@ -698,6 +698,22 @@ theorem C18_covering_array_ok_3wise :
     wellFormed (levels Gen.Covering.tripleFactors) Gen.Covering.tripleRows = true ∧
     coversAllTriples (levels Gen.Covering.tripleFactors) Gen.Covering.tripleRows = true := by decide +kernel
 
+/-- all value combinations of the given level counts -/
+def combos : List Nat → List (List Nat)
+  | [] => [[]]
+  | n :: ns => (List.range n).flatMap fun a => (combos ns).map (a :: ·)
+
+def coversCombos (rows : List (List Nat)) (cols : List Nat) (want : List (List Nat)) : Bool :=
+  want.all fun cb => rows.any fun r => cols.map (r[·]?) == cb.map some
+
+/-- the interaction block executed in both tiers is the FULL factorial of the mutually dependent options (pool kind ×
+    save_every × likelihood kind × fresh/resumed): every combination of their values occurs in an executed row -/
+theorem C18_interaction_block_full :
+    wellFormed (levels Gen.Covering.pairFactors) Gen.Covering.blockRows = true ∧
+    Gen.Covering.blockCols.length = 4 ∧
+    coversCombos Gen.Covering.blockRows Gen.Covering.blockCols
+      (combos (Gen.Covering.blockCols.map fun c => (levels Gen.Covering.pairFactors).getD c 0)) = true := by decide +kernel
+
 /-- what `C18_covering_array_ok` means: for any two options and any pair of their values some executed row has both -/
 theorem C18_pairs_covered (i j a b : Nat) (hij : i < j) (hj : j < (levels Gen.Covering.pairFactors).length)
     (ha : a < (levels Gen.Covering.pairFactors)[i]'(by omega)) (hb : b < (levels Gen.Covering.pairFactors)[j]) :
